@@ -98,4 +98,12 @@ theorem unconditional_writes_race :
       | trans h1 _ ih1 _ => intro hi; exact ih1 hi
     exact key 1 2 h rfl
 
+/-- Printing methods do not store into the objects they print (fact REGENERATED from the source on every run; the same table as C14's
+    `observers_do_not_store`): the only receiver stores outside setters, constructors, the locked numbering passes and the audited lazily
+    filled `Typ` caches are `Succs()` refreshing `Successors` and the byte counter of the private writer. Any other store would be an
+    unlocked write racing with concurrent printers — the hypothesis `source_discipline` cannot see (it looks at the numbering passes only). -/
+theorem printers_do_not_store :
+    Llir.Generated.Facts.observerWrites.all (fun r => (r.2.2.1 == "Succs" && r.2.2.2 == "Successors") || r.2.1 == "fmtWriter") = true := by
+  decide +kernel
+
 end Llir.Props.C13
